@@ -11,7 +11,10 @@ Record case := mkCase {
   c_conc1 : list (aop * ares);                      (* then two clients at once, each awaiting its own requests in order *)
   c_conc2 : list (aop * ares);
   c_final : list (N * list entry);                  (* store handed back by shutdown: content per document *)
-  c_inflight_answered : bool }.                     (* a request in flight when shutdown is requested gets an answer (not: waits forever) *)
+  c_inflight_answered : bool;                       (* a request in flight when shutdown is requested gets an answer (not: waits forever) *)
+  c_cancelled : list N }.                           (* positions (from 1) in [c_hist] of requests whose caller stopped waiting right after
+                                                       sending them (the future was dropped): the reply recorded there is a placeholder;
+                                                       the request still counts -- it was issued, the actor must carry it out *)
 
 Definition aerr_eqb (a b : aerr) : bool :=
   match a, b with
@@ -43,13 +46,14 @@ Definition deliveries_eqb (a b : deliveries) : bool :=
   let chans := map fst (a ++ b) in
   forallb (fun c => list_eqb event_eqb (chan_events c a) (chan_events c b)) chans.
 
-Fixpoint run_actor (s : astate) (h : list (aop * ares * deliveries)) (i : N) : N * astate :=
+Fixpoint run_actor_c (canc : list N) (s : astate) (h : list (aop * ares * deliveries)) (i : N) : N * astate :=
   match h with
   | [] => (0, s)
   | (o, r, d) :: rest =>
       let '(s', r', d') := astep' s o in
-      if ares_eqb r r' && deliveries_eqb d d' then run_actor s' rest (i + 1) else (i, s)
+      if (existsb (N.eqb i) canc || ares_eqb r r') && deliveries_eqb d d' then run_actor_c canc s' rest (i + 1) else (i, s)
   end.
+Definition run_actor := run_actor_c [].
 
 (** ---- C14 oracle: handles and the sync switch, tracked from the acknowledged requests ---- *)
 Record tr14 := mkT14 { t_h : list (N * N); t_sync : list (N * bool) }.
@@ -104,11 +108,23 @@ Definition tr14_step (t : tr14) (o : aop) (r : ares) : tr14 :=
   | ASetSync ns b, AOk => set_sync t ns b
   | _, _ => t
   end.
-Fixpoint scan14 (t : tr14) (h : list (aop * ares * deliveries)) : bool :=
+(** a request whose caller stopped waiting has no recorded reply: the oracle does not judge it, but
+    it was issued and counts for everything that follows (a close releases its handle, a switch of
+    the sync flag of an open document takes effect) *)
+Definition reply_of_cancelled (t : tr14) (o : aop) (r : ares) : ares :=
+  match o with
+  | ASetSync ns _ => if 0 <? get_h t ns then AOk else AErr ANotOpen
+  | _ => r
+  end.
+Fixpoint scan14_c (canc : list N) (t : tr14) (h : list (aop * ares * deliveries)) (i : N) : bool :=
   match h with
   | [] => true
-  | (o, r, d) :: rest => c14_ok t o r d && scan14 (tr14_step t o r) rest
+  | (o, r, d) :: rest =>
+      if existsb (N.eqb i) canc
+      then scan14_c canc (tr14_step t o (reply_of_cancelled t o r)) rest (i + 1)
+      else c14_ok t o r d && scan14_c canc (tr14_step t o r) rest (i + 1)
   end.
+Definition scan14 (t : tr14) (h : list (aop * ares * deliveries)) : bool := scan14_c [] t h 1.
 
 (** every acknowledged local write is in the store handed back by shutdown, or superseded there *)
 Definition acked (h : list (aop * ares * deliveries)) : list entry :=
@@ -253,15 +269,15 @@ Fixpoint merges (fuel : nat) (a b : list (aop * ares)) : list (list (aop * ares)
   end.
 
 Definition check (c : case) : N :=
-  let '(bad, s) := run_actor (ainit empty_tables) (c_hist c) 1 in
+  let '(bad, s) := run_actor_c (c_cancelled c) (ainit empty_tables) (c_hist c) 1 in
   let final_ok s := forallb (fun p => list_eqb entry_eqb (fs_all (fst p) (a_tables s)) (snd p)) (c_final c) in
   (* linearizability of the concurrent phase: some interleaving explains every reply and the store handed back *)
   let lin := existsb (fun il => match run_replies s il with Some s2 => final_ok s2 | None => false end)
                      (merges (S (length (c_conc1 c) + length (c_conc2 c))) (c_conc1 c) (c_conc2 c)) in
   let m1 := (bad =? 0) && lin in
   let acks := c_hist c ++ map (fun p => (fst p, snd p, [])) (c_conc1 c ++ c_conc2 c) in
-  let c' := mkCase (c_prop c) acks [] [] (c_final c) (c_inflight_answered c) in
-  let m2 := if c_prop c =? 14 then scan14 (mkT14 [] []) (c_hist c) && shutdown_ok c' && c_inflight_answered c
+  let c' := mkCase (c_prop c) acks [] [] (c_final c) (c_inflight_answered c) [] in
+  let m2 := if c_prop c =? 14 then scan14_c (c_cancelled c) (mkT14 [] []) (c_hist c) 1 && shutdown_ok c' && c_inflight_answered c
                                    (* the sequential part agrees with the model, the concurrent replies admit no order *)
                                    && ((negb (bad =? 0)) || lin)
             else scan12 (mkT12 [] [] [] (mkT14 [] [])) (c_hist c)
